@@ -579,7 +579,10 @@ private:
     } else if (const auto *NE = dyn_cast<CXXNewExpr>(S)) {
       J.attribute("k", "new");
       J.attribute("at", In.get(typeStr(NE->getAllocatedType())));
-      if (NE->isArray()) J.attribute("array", true);
+      if (NE->isArray()) {
+        J.attribute("array", true);
+        if (auto AS = NE->getArraySize()) if (*AS) child("asize", *AS);
+      }
       if (NE->getNumPlacementArgs())
         J.attributeArray("place", [&] { for (const Expr *A : NE->placement_arguments()) emitNode(A, false); });
       if (NE->getConstructExpr()) child("ctor", NE->getConstructExpr());
